@@ -24,9 +24,16 @@ PROVED = ("for EVERY byte string and EVERY finite schedule of GetData(k)/GetInte
           "GetOffsetModifiers translated from the clang AST equals the model's table; regenerated constants equal the model's; "
           "BitStreamReader with its one-byte shift register (the model the bits.ops correspondence runs) returns the same values and "
           "cursors as the pure bit function on every op sequence; on well-formed trees no tree query is ever refused, a code is refused "
-          "iff the root counter is full (65535 = 314 + 65221 updates), and a decode that ends at capacity stopped exactly there")
-PARTIAL = ("the encoder round-trip law (decode(encode tokens) = payload ++ <8 codes) is decided by the three-encoder / payload-prefix "
-           "correspondence only, not by a theorem; BitStreamReader's shift register is tied to the pure bit function by the bits.ops "
+          "iff the root counter is full (65535 = 314 + 65221 updates), and a decode that ends at capacity stopped exactly there; "
+          "encoder round trip (C04_encoder_prefix): for EVERY list of well-formed tokens (literal < 256 | match 3..60 bytes from "
+          "distance 1..4096) of at most 65214 tokens (tokens + 7 <= 65221, so the tree never fills), the reference decoder run on "
+          "Spec.encode's bytes ends normally, its output begins with the payload, and it reads fewer than 8 codes beyond the "
+          "payload's - at most one per zero padding bit of the last byte (C04_encoder_padding_codes); GetData(|payload|) on the "
+          "encoded bytes returns the payload (C04_encoder_getData); lemmas: packed bits read back by bitAt with zero padding, "
+          "GetNextCode along the encoder's root-to-leaf bits returns the symbol, GetRepeatOffset reads back every 12-bit offset code")
+PARTIAL = ("the encoder round-trip theorem is about the Lean encoder Spec.encode (own copy of the adaptive tree, MSB-first packing); the "
+           "harness's Python / C++ encoders are tied to it by the three-encoder / payload-prefix correspondence, and payloads longer "
+           "than 65214 tokens (where the counters fill) are outside the theorem; BitStreamReader's shift register is tied to the pure bit function by the bits.ops "
            "correspondence (direct oracle = the property's own description); real heap layout is not modelled: 'stays within the decoder's own memory' is the theorem that every model index is "
            "< 4096 / inside the tree tables plus the ASan run; std::vector / FileWriter in VolFile::ExtractFileLzh are trusted")
 TRUSTED = ["harness-side C++ reference decoder and Python encoder (each cross-checked against the Lean Spec by the correspondence run)"]
